@@ -6,7 +6,12 @@ each rule below is a necessary condition of the round trip and is checked on the
 
 R09a  ALIGN: per encoding version the serializer and the deserializer clamp alignment with the same constant (8 for XCDR1, 4 for XCDR2)
 R09b  DHEADER: only XCDR2-specific code writes or skips a DHEADER, and for each construct (appendable, mutable struct / union,
-      non-primitive sequence / array) the XCDR2 serializer writes one exactly when the XCDR2 deserializer skips one
+      non-primitive sequence / array) the XCDR2 serializer writes one exactly when the XCDR2 deserializer consumes one
+R09k  XCDR2 aggregated objects with a DHEADER (appendable / mutable struct and union): the decoder hands the DHEADER to a delimiting
+      function (one that derives both the read limit and the position where reading continues from it) — a discarded DHEADER leaves
+      the position inside or at the start of a nested object
+R09l  XCDR1 mutable struct / union: every successful return of the decoder passes a function that stops only at the sentinel
+R09m  XCDR2 member lookup compares member ids without narrowing them below the 28 bits of the EMHEADER
 R09c  strings: the serializer writes length = len + 1 and a terminating NUL; the deserializer reads length - 1 bytes and one more byte
 R09d  supported kinds: serialize_value / deserialize_value (and the element forms) leave the same TypeKind arms unimplemented
 R09e  EMHEADER length code: the serializer's size -> LC table is the inverse of the deserializer's LC -> size table on 1, 2, 4, 8
@@ -37,6 +42,104 @@ def clamp_of(fc, sink):
                 return k[1] if k[0] == "const" else "?"
             return None
     return "missing"
+
+
+def delimiting_fns(fx):
+    """ids of deserializer functions that confine reading to an announced extent: they have an integer parameter from which both a
+    store to Reader.buffer (the limit) and a store to Reader.pos (where reading continues) derive"""
+    from vplib import flow
+    out = {}
+    for b in fx.bodies.values():
+        if not b.is_fn_like() or (DES + "::") not in b.sname or "::tests::" in b.sname:
+            continue
+        fc = FnCtx(b)
+        m = fc.mir
+        params = [i + 1 for i, ty in enumerate(b.inputs or []) if ty in ("u32", "usize", "u64")]
+        if not params:
+            continue
+        g = flow.dep_graph(m)
+        got = {"pos": False, "buffer": False}
+        for fld in got:
+            for bb, i, s in fc.field_writes("Reader", fld):
+                used = s.rv.locals_used()
+                if any(flow.derives_from(m, u, g) & set(params) for u in used):
+                    got[fld] = True
+        if got["pos"] and got["buffer"]:
+            out[b.id] = b
+    return out
+
+
+def header_reads(fx, fc, delim=None):
+    """[(bb, line, mode)] for every u32 primitive read of the function: mode 'discarded' (value never used: a header that is skipped),
+    'delimits' (value handed to a delimiting function, see delimiting_fns) or 'used'"""
+    delim = delimiting_fns(fx) if delim is None else delim
+    m = fc.mir
+    disc = {(bb, line) for bb, line in discarded_u32_reads(fc)}
+    out = []
+    for bb, t in m.calls():
+        if t.callee.indirect or t.callee.method() != "deserialize_primitive_type" or t.dest is None or "Result<u32" not in m.locals[t.dest.local]:
+            continue
+        if (bb, t.line) in disc:
+            out.append((bb, t.line, "discarded"))
+            continue
+        vals = _continue_values(m, t.dest.local)
+        mode = "used"
+        for b2, t2 in m.calls():
+            if t2.callee.indirect or t2.callee.res_id not in delim:
+                continue
+            if any(a.place is not None and a.place.local in vals for a in t2.args):
+                mode = "delimits"
+        out.append((bb, t.line, mode))
+    return out
+
+
+def _continue_values(m, d):
+    """locals holding the Ok value of the Result in local d after `?` (and plain copies of it)"""
+    branch_dests = [t2.dest.local for b2, t2 in m.calls() if t2.callee.method() == "branch" and t2.dest is not None
+                    and any(a.place is not None and a.place.local == d for a in t2.args)]
+    vals = set()
+    for b2, i, s in m.stmts():
+        if s.kind == "assign" and s.rv is not None and s.rv.kind == "use" and s.rv.ops and s.rv.ops[0].place is not None:
+            pl = s.rv.ops[0].place
+            if pl.local in branch_dests and any(p[0] == "downcast" and p[1] == "Continue" for p in pl.proj) and not s.lhs.proj:
+                vals.add(s.lhs.local)
+    for _ in range(4):
+        grew = False
+        for b2, i, s in m.stmts():
+            if s.kind == "assign" and s.rv is not None and s.rv.kind == "use" and not s.lhs.proj and s.rv.ops and s.rv.ops[0].place is not None \
+                    and s.rv.ops[0].place.local in vals and not s.rv.ops[0].place.proj and s.lhs.local not in vals:
+                vals.add(s.lhs.local)
+                grew = True
+        if not grew:
+            break
+    return vals
+
+
+def sentinel_seekers(fx):
+    """ids of XCDR1 deserializer functions that stop only at the sentinel: every `Ok` they return is reached through the true edge of a
+    comparison of a length with 0 and of a (masked) id with PID_SENTINEL — a member search (seek_to_pid) also stops at a member"""
+    out = {}
+    for b in fx.bodies.values():
+        if not b.is_fn_like() or (DES + "::") not in b.sname or "::tests::" in b.sname or "EncodingVersion1" not in (b.impl_self or ""):
+            continue
+        fc = FnCtx(b)
+        m = fc.mir
+        oks = [bb for bb, i, s in m.stmts() if s.kind == "assign" and s.lhs.local == 0 and not s.lhs.proj and s.rv is not None and s.rv.kind == "aggregate"
+               and str(s.rv.agg.get("variant", "")) == "Ok" and not m.blocks[bb].cleanup]
+        if not oks or not any(t.callee.method() == "deserialize_primitive_type" for bb, t in m.calls() if not t.callee.indirect):
+            continue
+        def eq_const(k):
+            def pred(e, outcome, ce=None):
+                if outcome != "true" or e[0] != "bin" or e[1] != "Eq":
+                    return False
+                a, c = E.strip_casts(e[2]), E.strip_casts(e[3])
+                if a[0] == "const":
+                    a, c = c, a
+                return c == ("const", k)
+            return pred
+        if not fc.reach_avoiding(oks, eq_const(0)) and not fc.reach_avoiding(oks, eq_const(1)):
+            out[b.id] = b
+    return out
 
 
 def discarded_u32_reads(fc):
@@ -169,6 +272,63 @@ def consts_of(fc, ops):
     return out
 
 
+def check_object_extent(fx, rep, rk, rl, rm):
+    """Shared by C09 (round trip of a nested object followed by another member) and C39 (a reader that knows fewer / more members):
+    rk  XCDR2 decoders of appendable / mutable structs and unions hand the DHEADER to a delimiting function
+    rl  XCDR1 decoders of mutable structs and unions pass a sentinel-only seek on every successful return
+    rm  XCDR2 member lookup does not narrow member ids below the 28 bits of the EMHEADER"""
+    delim = delimiting_fns(fx)
+    seekers = sentinel_seekers(fx)
+    nagg = 0
+    for dn in ("deserialize_appendable_type", "deserialize_appendable_union_type", "deserialize_mstruct_type", "deserialize_munion_type"):
+        for d in impl_fns(fx, DES, 2, dn):
+            # the members of an aggregated object are read inside the extent its DHEADER announces and reading continues behind it. The
+            # member decoders of mutable types restore the read position, and the reader of an appendable type may know fewer members
+            # than were written: without the DHEADER the object's end is not known, and whatever follows a nested object is read from
+            # the wrong place.
+            nagg += 1
+            modes = [x[2] for x in header_reads(fx, FnCtx(d), delim)]
+            adder(rep, d)(rk, "XCDR2 %s: the DHEADER delimits the object (members are read within it, reading continues behind it)" % dn,
+                          modes == ["delimits"],
+                          "the DHEADER is %s; a nested object followed by another member is then decoded from the wrong position "
+                          "(delimiting functions found: %s)" % (modes or "not read", sorted(b.item_name for b in delim.values())))
+    for dn in ("deserialize_mstruct_type", "deserialize_munion_type"):
+        for d in impl_fns(fx, DES, 1, dn):
+            # XCDR1 has no DHEADER; a mutable object ends at its sentinel. The member decoders restore the read position, so every
+            # successful return of the object's decoder has to pass a function that stops only at the sentinel.
+            nagg += 1
+            m = FnCtx(d).mir
+            member_calls = [bb for bb, t in m.calls() if not t.callee.indirect and t.callee.method() in ("deserialize_members", "deserialize_munion_members", "deserialize_mmember")]
+            seek_blocks = [bb for bb, t in m.calls() if not t.callee.indirect and t.callee.res_id in seekers]
+            err_blocks = [bb for bb, t in m.calls() if not t.callee.indirect and t.callee.method() == "from_residual"]
+            rets = set(m.return_blocks())
+            bad = [bb for bb in member_calls if m.reachable(bb, removed_blocks=seek_blocks + err_blocks) & rets]
+            adder(rep, d)(rl, "XCDR1 %s: after the members the decoder moves past the sentinel of the object" % dn,
+                          bool(member_calls) and not bad,
+                          "a successful return is reachable from the member decoding in bb%s without passing a function that stops only at "
+                          "the sentinel (found: %s); the member decoders restore the read position, so whatever follows a nested object is "
+                          "read from inside it" % (bad[:2], sorted(b.item_name for b in seekers.values())))
+    rep.floor(rk, nagg, 6, "decoders of delimited aggregated objects (4 XCDR2, 2 XCDR1)")
+    rep.floor(rk, len(delim), 1, "delimiting functions of the deserializer")
+    rep.floor(rl, len(seekers), 1, "sentinel-only seek functions of the XCDR1 deserializer")
+    # member ids are compared at the width the header carries (28 bits in an EMHEADER; the serializer writes member_id & 0x0fffffff)
+    nid = 0
+    for b in impl_fns(fx, DES, 2, "seek_to_pid") + impl_fns(fx, DES, 2, "deserialize_mmember"):
+        fc = FnCtx(b)
+        nid += 1
+        narrow = []
+        for bb, i, s in fc.mir.stmts():
+            if s.kind == "assign" and s.rv is not None and s.rv.kind == "cast" and s.rv.to_ty in ("u16", "i16", "u8", "i8") and s.rv.from_ty in ("u32", "i32", "u64", "usize"):
+                e = fc.rv_expr(s)
+                inner = E.strip_casts(e)
+                if (inner[0] == "bin" and inner[1] == "BitAnd") or E.mentions_call(e, "get_id"):
+                    narrow.append((s.line, fc.show(e)[:80]))
+        adder(rep, b)(rm, "XCDR2 %s: the member id is not narrowed below the 28 bits of the EMHEADER" % b.item_name, not narrow,
+                      "member id cast to 16 bits before the comparison: two members whose ids agree in the low 16 bits are confused: %s" % narrow[:2],
+                      narrow[0][0] if narrow else None)
+    rep.floor(rm, nid, 2, "XCDR2 member lookup functions")
+
+
 def run(ctx, rep):
     fx = ctx.facts
     # R09a
@@ -185,6 +345,7 @@ def run(ctx, rep):
     pairs = (("serialize_appendable_type", ("deserialize_appendable_type", "deserialize_appendable_union_type")), ("serialize_mstruct_type", ("deserialize_mstruct_type",)),
              ("serialize_munion_type", ("deserialize_munion_type",)), ("serialize_sequence_type", ("deserialize_sequence_type",)), ("serialize_array_type", ("deserialize_array_type",)))
     npairs = 0
+    delim = delimiting_fns(fx)
     for ver in (1, 2):
         for sn, dns in pairs:
             s = impl_fns(fx, SER, ver, sn)
@@ -198,10 +359,13 @@ def run(ctx, rep):
                     rep.add("R09b", "EncodingVersion%d::%s" % (ver, dn), "deserializer method exists", False, "found %d" % len(d))
                     continue
                 npairs += 1
-                dh = len(discarded_u32_reads(FnCtx(d[0])))
-                adder(rep, d[0])("R09b", "XCDR%d %s: a DHEADER is skipped exactly when %s writes one" % (ver, dn, sn), (dh == 1) == sh and dh <= 1,
-                                 "serializer writes DHEADER: %s; deserializer skips %d u32 header(s)" % (sh, dh))
+                fcd = FnCtx(d[0])
+                hr = header_reads(fx, fcd, delim)
+                dh = len([x for x in hr if x[2] in ("discarded", "delimits")])
+                adder(rep, d[0])("R09b", "XCDR%d %s: a DHEADER is consumed exactly when %s writes one" % (ver, dn, sn), (dh == 1) == sh and dh <= 1,
+                                 "serializer writes DHEADER: %s; deserializer consumes %d u32 header(s)" % (sh, dh))
     rep.floor("R09b", npairs, 10, "construct x version pairs")
+    check_object_extent(fx, rep, "R09k", "R09l", "R09m")
     for b in fx.bodies.values():
         if not b.is_fn_like() or "::tests::" in b.sname or not b.sum_calls:
             continue
@@ -211,8 +375,10 @@ def run(ctx, rep):
                               "Dheader::new called from version-independent / XCDR1 code: XCDR1 has no DHEADER")
         if (DES + "::") in b.sname and any(x.endswith("deserialize_primitive_type") for x in b.sum_calls) and b.item_name != "seek_to_pid":
             fc = FnCtx(b)
-            for bb, line in discarded_u32_reads(fc):
-                adder(rep, b)("R09b", "a DHEADER is skipped only by XCDR2-specific code", "EncodingVersion2" in (b.impl_self or ""),
+            for bb, line, mode in header_reads(fx, fc, delim):
+                if mode == "used":
+                    continue
+                adder(rep, b)("R09b", "a DHEADER is consumed only by XCDR2-specific code", "EncodingVersion2" in (b.impl_self or ""),
                               "a u32 is read and discarded in version-independent / XCDR1 code (the XCDR1 serializer writes no DHEADER there)", line)
     # R09c
     ss = [b for b in fx.bodies.values() if b.item_name == "serialize_string_type" and b.is_fn_like() and SER in b.sname]
